@@ -33,7 +33,7 @@ RULE = ("Each case picks one of six representation pairs (label pair:*) and a "
         "one calibrator, for agg some row with more than one element; "
         "distinct by SHA-1 of the case.")
 NT_FLOOR = 0.6
-BUDGET = {"quick": 400, "thorough": 5000}
+BUDGET = {"quick": 400, "thorough": 3000}
 TECHNIQUE = ("property-based testing (Hypothesis): differential testing of "
              "paired library entry points on identical inputs, each side also "
              "against an independent float64 reference")
